@@ -92,6 +92,23 @@ def bounded_calls(chk, repo, rule="C09.bounded"):
             chk.violation(rule, mem, "if budget <= 0: self._pending_unused_data = ...; break", "budget exhaustion exit", "the multi-member walk does not stop at the output budget")
     else:
         chk.violation(rule, mem, "budget = max_length - produced", "budget derivation", "the multi-member walk does not charge produced output against max_length")
+    # input is parked for the next call only after a spent decompressor was replaced: it still lists the parked bytes in its unused_data and
+    # decompress_sync() would feed them a second time
+    gm = cfg_of(mem.node)
+    parks = [n_ for n_ in gm.nodes if n_.in_finally_copy is None and K.node_has(n_, "self._pending_unused_data = $X", "exec")]
+    swaps = [i for i in ast.walk(mem.node) if isinstance(i, ast.If) and "self._decompressor.eof" in norm.raw(i.test) and any(M.contains(b_, "self._new_decompressor()") for b_ in i.body)]
+    heads = [n_ for n_ in gm.nodes if n_.kind == "test" and isinstance(getattr(n_.ast, "parent", None), ast.While) and n_.ast is n_.ast.parent.test]
+    swap_tests = [n_ for n_ in gm.nodes if n_.kind == "test" and any(n_.ast is i.test for i in swaps)]
+    if not parks or not heads or not swap_tests:
+        chk.violation("C09.respawn", mem, "if self._decompressor.eof: self._decompressor = self._new_decompressor()", "before the budget exit", "the members walk no longer replaces a spent decompressor / no longer parks unread input")
+    else:
+        pth = gm.find_path(None, lambda n_: n_ in parks, lambda n_: n_ in swap_tests, EXPLICIT, [(h, "T") for h in heads])
+        if pth is None:
+            chk.ok("C09.respawn", parks[0].ast, "within one iteration the spent-decompressor test (and replacement) comes before the budget exit that parks the remaining input")
+        else:
+            chk.violation("C09.respawn", parks[0].ast, K.short(parks[0].ast), "if self._decompressor.eof: self._decompressor = self._new_decompressor()  (before the budget exit)",
+                          "the walk can run out of budget exactly on a member boundary and park the rest while self._decompressor is still the spent one: its unused_data still lists the parked bytes, deflate mode never resets it, and the next decompress_sync() feeds them again - the remaining members are decoded twice (or a valid raw-deflate body raises)",
+                          path=gm.fmt_path(pth))
 
 
 def _value_branches(e):
